@@ -152,7 +152,7 @@ def shape_first(shape):
 def gen_scenario(rng: random.Random, seed: int, cls: str) -> dict:
     nparts = rng.choice([1, 2, 2, 3])
     nnodes = rng.choice([1, 2, 3])
-    kinds = {"plain": ["plain"], "txn": ["txn"], "legacy": ["legacy"], "reset": ["plain", "txn"], "oor-race": ["plain", "txn"], "late-lookup": ["plain"],
+    kinds = {"plain": ["plain"], "txn": ["txn"], "legacy": ["legacy"], "reset": ["plain", "txn"], "oor-race": ["plain", "txn"], "late-lookup": ["plain"], "reset-race": ["plain", "txn"],
              "filter": ["txn"]}[cls]
     logs, leo = [], []
     for _ in range(nparts):
@@ -217,6 +217,19 @@ def gen_scenario(rng: random.Random, seed: int, cls: str) -> dict:
         sc["noleader"] = [[p, rng.choice([0.03, 0.08, 0.15])]]
         sc["slow_offset_fetch"] = rng.choice([0.1, 0.25, 0.4])
         sc["tasks"] = [gen_ops(rng, nparts, leo, n=rng.randrange(2, 6), seeks=False, pauses=False)]
+    if cls == "reset-race":
+        # a seek() that lands while the ListOffsets request of a position reset is in flight (fresh partition without a
+        # committed offset, or after seek_to_end / seek_to_beginning): the late reset result must not override it
+        sc["group"] = rng.random() < 0.5
+        sc["policy"] = rng.choice(["earliest", "latest"])
+        sc["faults"] = dict(budget=0, slow=rng.choice([0, 0.002]))
+        sc["env"] = []
+        sc["committed"] = [None] * nparts
+        p = rng.randrange(nparts)
+        sc["reset_race"] = dict(p=p, seek=rng.randrange(shape_first(logs[p]), leo[p] + 1), delay=rng.choice([0.01, 0.03, 0.08]),
+                                at=rng.choice([0.1, 0.5, 0.9]))
+        pre = [[rng.choice(["seek_end", "seek_beg"]), p]] if rng.random() < 0.4 else []
+        sc["tasks"] = [pre + gen_ops(rng, nparts, leo, n=rng.randrange(2, 6), seeks=False, pauses=False)]
     if cls == "oor-race":
         # a position the broker reports out of range (stale committed offset) and a seek() that lands while that
         # report is in flight: the seek wins, the late report is for a position the consumer already left
@@ -257,7 +270,7 @@ def run_scenarios(scs, jobs=12):
 def classify(sc, trace, v):
     if v["accepted"] and not v["bad_l"]:
         return None
-    own = {"txn": "C08", "filter": "C08", "reset": "C13", "oor-race": "C13", "late-lookup": "C13"}.get(sc["cls"], "C03")
+    own = {"txn": "C08", "filter": "C08", "reset": "C13", "oor-race": "C13", "late-lookup": "C13", "reset-race": "C13"}.get(sc["cls"], "C03")
     if v["bad_l"] and (v["accepted"] or v["bad_l"] <= v["reached"]):
         ev = trace[v["bad_l"] - 2] if 0 <= v["bad_l"] - 2 < len(trace) else {"e": "init"}
         prop = own if own != "C13" else "C03"
@@ -309,7 +322,9 @@ def conformance(rep: Report, ctx, pid: str, classes: dict[str, int]):
         counts[sig] = counts.get(sig, 0) + 1
         if prop != pid:
             # a seek overridden by a late out-of-range report violates C03 (seek takes effect) and C13 (seek wins) alike
-            if not (sc["cls"] == "oor-race" and pid in ("C03", "C13")):
+            # (likewise any rejection that follows a seek() in the classes built around seek races)
+            if not (sc["cls"] in ("oor-race", "reset-race", "reset") and pid in ("C03", "C13")
+                    and any(e["e"] == "Seek" for e in tr[:v["reached"]])):
                 continue
             sig = pid + sig[3:]
         k = (v["bad_l"] - 2) if (v["bad_l"] and (v["accepted"] or v["bad_l"] <= v["reached"])) else v["reached"] - 1
